@@ -162,6 +162,19 @@ impl MScriptFile {
         functions.run_function(name, args, current_frame, callback_state, jump_callback)
     }
 
+    #[cfg(mscript_verif)]
+    pub(crate) fn verif_dump(&self) {
+        if let Some(functions) = self.get_functions_ref() {
+            crate::verif::dump_file(
+                &self.path,
+                functions
+                    .map
+                    .iter()
+                    .map(|(name, function)| (name.as_str(), function.instructions())),
+            );
+        }
+    }
+
     /// Get the path of the file.
     pub fn path(&self) -> Rc<String> {
         self.path.clone()
